@@ -712,3 +712,26 @@ End Hist.
 (* Message.totalSize() of a message without headers: 4 (crc) + 1 + 1 + sizeofBytes(key) +
    sizeofBytes(value) + 8 (timestamp) + varArrayLen(0) = 1 *)
 Definition total_size_nohdr (klen vlen : N) : N := (4 + 1 + 1 + (4 + klen) + (4 + vlen) + 8 + 1)%N.
+
+(* ------------------------------------------------------------------------------------------
+   Client.Produce (produce.go): what the Writer's retry loop sees of a produce response.
+   ProduceResponse.Error = makeError(partition.ErrorCode, …): nil exactly for code 0, the
+   error Error(code) for EVERY other int16 code, negative ones (UNKNOWN_SERVER_ERROR = -1)
+   included; Throttle, BaseOffset, LogStartOffset are copied, LogAppendTime goes through
+   makeTime (zero time for t <= 0).  Compared on all 65536 codes by the ops prr / pr of
+   harness/cmd/writer.  [code_err] is the broker verdict "ok | err code" in the encoding of the
+   interchange format (err = N: c for c > 0, 65536 + c for c < 0); the LTS takes any [e : err]
+   in RejectedCode e, so no theorem depends on the sign or size of a code.
+   ------------------------------------------------------------------------------------------ *)
+From Coq Require Import ZArith.
+Definition produce_error (code : Z) : option Z := if Z.eqb code 0 then None else Some code.
+Definition make_time_ms (t : Z) : option Z := if Z.leb t 0 then None else Some t.
+Definition code_err (code : Z) : option err :=
+  match produce_error code with
+  | None => None
+  | Some c => Some (if Z.ltb c 0 then Z.to_N (65536 + c) else Z.to_N c)
+  end.
+(* the reaction of the fake broker that answers a produce request with partition error code c
+   without appending (c <> 0), resp. appends and acknowledges (c = 0) *)
+Definition reaction_of_code (code : Z) : reaction :=
+  match code_err code with None => AppliedAcked | Some e => RejectedCode e end.
